@@ -5,10 +5,14 @@
 
      [I x]                         the variable's value before the first step
      [In i x]                      inside a tmp / with step: the variable's value there
-     [P i x [a c o] [a c o] ...]   after step i: the variable, then for every alias
-                                   taken so far (before step 0, 1, ...) the value of
-                                   the other variable, of the closure capture and of
-                                   the captured output *)
+     [P i x [a c o b] [a c o b] ...]   after step i: the variable, then for every alias
+                                   taken so far (before step 0, 1, ...) the value of the
+                                   other variable, of the closure capture, of the captured
+                                   output and of the outer container's element
+     [C i [n r r ...] [n r r ...] ...]  after step i, per alias: count of the alias, then the
+                                   alias re-built from its own iteration (maps: a fresh map
+                                   from `keys` and indexing every key; lists: `all` / `each`)
+                                   for the variable, closure and container aliases *)
 From verif Require Import lib.Base model.C15_Syntax model.C15_Values model.C15_Interp.
 Open Scope N_scope.
 
@@ -22,6 +26,7 @@ Inductive step :=
 Definition tag_I : bytes := [73].
 Definition tag_In : bytes := [73; 110].
 Definition tag_P : bytes := [80].
+Definition tag_C : bytes := [67].
 
 (* what the property allows for the variable after the step, given its old value:
    the nested assoc / dissoc; a step that raises leaves the variable alone;
@@ -79,7 +84,32 @@ Fixpoint find_P (i : value) (log : list value) : option (value * list value) :=
   | _ :: r => find_P i r
   end.
 
-(* alias group j must show the snapshot three times *)
+Fixpoint find_C (i : value) (log : list value) : option (list value) :=
+  match log with
+  | [] => None
+  | VList (VStr t :: j :: groups) :: r =>
+    if bytes_eqb t tag_C && value_eqb i j then Some groups else find_C i r
+  | _ :: r => find_C i r
+  end.
+
+Definition size_of (v : value) : option Z :=
+  match v with
+  | VList l => Some (Z.of_nat (length l))
+  | VMap m => Some (Z.of_nat (length m))
+  | _ => None
+  end.
+
+(* count and iteration of alias j must be those of its snapshot *)
+Fixpoint counts_ok (snaps : list value) (groups : list value) : bool :=
+  match snaps, groups with
+  | [], [] => true
+  | sn :: snaps', VList (VNum n :: rebuilt) :: groups' =>
+    match size_of sn with Some k => Z.eqb n k | None => false end
+    && forallb (value_eqb sn) rebuilt && counts_ok snaps' groups'
+  | _, _ => false
+  end.
+
+(* alias group j must show the snapshot in every position *)
 Fixpoint aliases_ok (snaps : list value) (groups : list value) : bool :=
   match snaps, groups with
   | [], [] => true
@@ -99,6 +129,7 @@ Fixpoint check_steps (steps : list step) (i : nat) (old : value) (snaps : list v
     | Some (x, groups) =>
       let snaps' := snaps ++ [old] in
       aliases_ok snaps' groups
+      && match find_C iv log with Some cg => counts_ok snaps' cg | None => false end
       && match spec_after st old with Some allowed => existsb (value_eqb x) allowed | None => true end
       && match spec_inside st old with
          | Some (Some nv) => match find_inside iv log with Some y => value_eqb y nv | None => false end
